@@ -18,6 +18,19 @@ def method(name, beh, tag, cmp=False):
     return [f"    def __{name}__(self, other):", f"        return {body}"]
 
 
+CMPS = ("lt", "le", "gt", "ge")
+
+
+def decoys(defined, value):
+    """the comparison methods that must NOT be called return the opposite value, so that dispatching to a wrong method
+    (e.g. __lt__ instead of __le__ as the reflection of >=) is visible"""
+    out = []
+    for n in CMPS:
+        if n not in defined:
+            out += [f"    def __{n}__(self, other):", f"        return {value}"]
+    return out
+
+
 def classes(idx, c, op):
     kind = c["kind"]
     fname = op[0]
@@ -30,6 +43,10 @@ def classes(idx, c, op):
         # the reflected method the right operand offers is A's own (same class, or inherited unchanged)
         if not (kind != "arith" and rname == fname):
             a_body += method(rname, c["rfl"], "rfl", cmpk)
+    if kind == "cmp":
+        own = {fname} | ({rname} if (c["rel"] == "same" or (c["rel"] == "sub" and c["ovr"] == 0)) else set())
+        # forward value is True, reflected value is False; decoys on A return a value neither correct path yields for A
+        a_body += decoys(own, "False" if c["rel"] != "same" else "None" if False else "False")
     src += a_body or ["    pass"]
     if c["rel"] == "same":
         return src, A, A
@@ -37,6 +54,8 @@ def classes(idx, c, op):
     b_body = []
     if c["rel"] == "unrelated" or (c["rel"] == "sub" and c["ovr"] == 1):
         b_body = method(rname, c["rfl"], "rfl", cmpk)
+    if kind == "cmp" and (c["rel"] == "unrelated" or (c["rel"] == "sub" and c["ovr"] == 1)):
+        b_body += decoys({rname}, "True")      # B's correct reflected method yields False
     src += b_body or ["    pass"]
     return src, A, B
 
